@@ -15,7 +15,17 @@ Trace == JsonDeserialize(IOEnv.TRACE_FILE)
 VARIABLES l, bad
 vars == <<l, bad>>
 
-Verdict(e) ==
+(* kind = "codec": what from_variant_record / encode_haplotypes / format_haplotypes *)
+(* returned for a (random, larger) record; TLC recomputes the codec on it           *)
+CodecVerdict(e) ==
+  LET r == [ref |-> e.ref, alts |-> e.alts]
+  IN  IF e.cols # SnvCols(r) THEN "SnvColsArePolymorphic"
+      ELSE IF e.alleles # Alleles(r) THEN "FirstAppearanceNumbering"
+      ELSE IF e.matrix # Encode(r) THEN "Encode"
+      ELSE IF e.decoded # Rows(r) THEN "RoundTrip"
+      ELSE "ok"
+
+PairVerdict(e) ==
   LET r  == [ref |-> e.src.ref, alts |-> e.src.alts]
       cs == SnvCols(r)
       o  == e.out
@@ -35,6 +45,8 @@ Verdict(e) ==
           (\E s \in DOMAIN o.gts : \E j \in DOMAIN o.gts[s] : o.gts[s][j] < 0 \/ o.gts[s][j] > Len(o.alts)) THEN "GenotypeComplete"
   ELSE IF \E s \in DOMAIN o.gts : Len(o.gts[s]) = 0 THEN "GenotypeComplete"
   ELSE "ok"
+
+Verdict(e) == IF e.kind = "codec" THEN CodecVerdict(e) ELSE PairVerdict(e)
 
 Init == l = 1 /\ bad = 0
 Next == /\ l <= Len(Trace)
